@@ -380,25 +380,33 @@ func runC06(p *Prog, r *Report, tier string) {
 	checkSingleSuccessExit(p, r, "R-OWNER.every-record-applied")
 }
 
-func reachableBlock(from, to *ssa.BasicBlock) bool {
-	seen := map[*ssa.BasicBlock]bool{}
-	var w func(b *ssa.BasicBlock) bool
-	w = func(b *ssa.BasicBlock) bool {
+func reachableBlock(from, to *ssa.BasicBlock) bool { return reachableBlockEdge(nil, from, to) }
+
+// reachableBlockEdge: can `to` be reached from `from` when `from` was entered from pred? (branch threading applies)
+func reachableBlockEdge(pred, from, to *ssa.BasicBlock) bool {
+	type vkey struct{ pred, b *ssa.BasicBlock }
+	seen := map[vkey]bool{}
+	var w func(pred, b *ssa.BasicBlock) bool
+	w = func(pred, b *ssa.BasicBlock) bool {
 		if b == to {
 			return true
 		}
-		if seen[b] {
+		k := vkey{nil, b}
+		if isThreadBlock(b) {
+			k.pred = pred
+		}
+		if seen[k] {
 			return false
 		}
-		seen[b] = true
-		for _, s := range b.Succs {
-			if w(s) {
+		seen[k] = true
+		for _, si := range feasibleSuccs(pred, b) {
+			if w(b, b.Succs[si]) {
 				return true
 			}
 		}
 		return false
 	}
-	return w(from)
+	return w(pred, from)
 }
 
 // sameOrigin: both values are loads of the same field of the same base, or identical.
